@@ -125,7 +125,11 @@ pub fn run_check(id: &str, report: &mut Report, budget: Duration) -> bool {
             report.set("end_to_end_daemon_runs", n);
         }
         "C11" => e5::run_c11(report, budget),
-        "C17" => e5::run_c17(report, budget),
+        "C17" => {
+            e5::run_c17(report, budget);
+            let n = e6::many_policies_slice(report, "C17", &e5::base_model(0), false);
+            report.set("end_to_end_agent_runs", n);
+        }
         "C04" => e6::run_c04(report),
         "C15" => e6::run_c15(report),
         "C06" => e4::run_c06(report),
